@@ -45,6 +45,10 @@ type TotalCase struct {
 	Props    bool                   `json:"props,omitempty"`
 	UseStep  bool                   `json:"useStep,omitempty"`
 	Deadline int                    `json:"deadlineMs"`
+	// GoTyped: messages and bindings also hold values of Go types that
+	// no JSON decoder produces ([]string, map[string]string, []byte,
+	// structs) - what an in-process host or a native action may pass
+	GoTyped bool `json:"goTyped,omitempty"`
 	// ByCancel: the context ends by cancellation instead of a deadline
 	ByCancel bool `json:"byCancel,omitempty"`
 	// KnotNode (Go-built specs): this node's action is replaced by a
@@ -163,6 +167,7 @@ func genTotal(t *rapid.T) TotalCase {
 	c.UseStep = rapid.IntRange(0, 3).Draw(t, "useStep") == 0
 	c.Deadline = rapid.SampledFrom([]int{0, 5, 30, 30}).Draw(t, "deadline")
 	c.ByCancel = rapid.Bool().Draw(t, "byCancel")
+	c.GoTyped = rapid.IntRange(0, 4).Draw(t, "goTyped") == 0
 	return c
 }
 
@@ -500,6 +505,19 @@ func checkTotal(c TotalCase) (v ev.Verdict) {
 		v.Class("unknown-node")
 	}
 	msgs := copyMsgs(c.Messages)
+	if c.GoTyped {
+		typed := func() []interface{} {
+			return []interface{}{[]string{"x", "y"}, map[string]string{"k": "v"}, []byte("b"), struct{ A int }{1}, 1.0, "a"}
+		}
+		for _, k := range []string{"a", "b", "c", "l"} {
+			msgs = append(msgs, map[string]interface{}{k: typed(), "t": []string{"n1"}}, typed())
+		}
+		if st.Bs != nil {
+			st.Bs["l"], st.Bs["a"], st.Bs["x"] = typed(), typed(), map[string]string{"k": "v"}
+		}
+		dims++
+		v.Class("go-typed-values")
+	}
 	for _, m := range msgs {
 		if m == nil {
 			v.Class("null-message")
